@@ -143,7 +143,14 @@ func TarWriteHeader(tw *tar.Writer, h *tar.Header) error {
 	put64(blk, offMode, h.Mode)
 	put64(blk, offSize, size)
 	if !h.ModTime.IsZero() { // the real writer stores a zero time.Time as 0
-		put64(blk, offMTime, h.ModTime.Unix())
+		sec := h.ModTime.Unix()
+		if h.Format == tar.FormatUnknown && h.ModTime.Nanosecond() >= 500000000 {
+			// unless a format is chosen explicitly the real writer ROUNDS ModTime to
+			// the nearest second (halfway up); explicit USTAR/GNU headers keep the
+			// whole seconds
+			sec++
+		}
+		put64(blk, offMTime, sec)
 	}
 	blk[offType] = h.Typeflag
 	blk[offFormat] = byte(modelFormat(h))
